@@ -104,6 +104,7 @@ class Registry:
         self.replays = {}
         self.records = {}
         self.value_records = set()
+        self.bounded = []
 
     def contract(self, fq, **kw):
         c = Contract(fq, **kw)
@@ -141,6 +142,11 @@ class Registry:
     def syntactic_check(self, name, prop, fn, note=""):
         """fn() -> (ok: bool, detail: str).  Decided by AST comparison / scan, reported as backend 'syntactic'."""
         self.syntactic.append((name, prop, fn, note))
+
+    def bounded_check(self, name, prop, fn, note=""):
+        """A BOUNDED stand-in (exhaustive enumeration of a stated finite space on the real function).  fn(tier, repo) ->
+        {space, evaluations, failures: [...], samples, ...}.  Reported under coverage.bounded, never counted as discharged."""
+        self.bounded.append((name, prop, fn, note))
 
     def replay(self, unit_fq):
         def deco(fn):
